@@ -49,6 +49,10 @@ func (n *capNet) Broadcast(m *spectypes.SSVMessage) error {
 	}
 	e := &Emitted{From: n.from, Msg: sm, Raw: m, Seq: len(n.w.Pool)}
 	n.w.Pool = append(n.w.Pool, e)
+	if n.w.FailBroadcast != nil && n.w.FailBroadcast(n.from, sm) {
+		// the message went out (it is captured and deliverable) but the publish call reports an error
+		return fmt.Errorf("injected broadcast error")
+	}
 	return nil
 }
 
@@ -68,8 +72,27 @@ type World struct {
 	// Reports: every decided message returned by Controller.ProcessMsg, per operator
 	Reports map[OpID][]*specqbft.SignedMessage
 	Log     *zap.Logger
-	// NoValueCheckNames: value names that fail the value check
 	FullNode bool
+	// FailBroadcast, when set, makes the capturing network report an error for the selected publishes
+	// (the message is still captured: "delivered but the call errored").
+	FailBroadcast func(from OpID, m *specqbft.SignedMessage) bool
+}
+
+// ArmedRound is the round operator i's (testing) round timer was last armed for, 0 if never.
+func (w *World) ArmedRound(i OpID) specqbft.Round {
+	if t, ok := w.Cfg[i].Timer.(*roundtimer.TestQBFTTimer); ok && t.State.Timeouts > 0 {
+		return t.State.Round
+	}
+	return 0
+}
+
+// TimeoutArmed delivers the timeout event the real timer would deliver: for the round it was last armed for.
+func (w *World) TimeoutArmed(i OpID) error {
+	r := w.ArmedRound(i)
+	if r == 0 {
+		return fmt.Errorf("operator %d: round timer was never armed", i)
+	}
+	return w.Timeout(i, r)
 }
 
 func KeySet(n int) *tu.TestKeySet {
@@ -360,6 +383,22 @@ func (w *World) ByzProposal(s OpID, round int, value string) (*specqbft.SignedMe
 			sort.Slice(prepared, func(a, b int) bool { return prepared[a].pr > prepared[b].pr })
 			for _, c := range prepared {
 				rcs = append(rcs, c.m)
+			}
+			if len(rcs) < w.Quorum() {
+				// last resort of the adversary: replay honest round-changes of OTHER rounds (a correct receiver
+				// refuses them: "wrong msg round")
+				seen := map[OpID]bool{}
+				for _, m := range rcs {
+					seen[m.Signers[0]] = true
+				}
+				for _, e := range w.Pool {
+					m := e.Msg.Message
+					if m.MsgType == specqbft.RoundChangeMsgType && len(e.Msg.Signers) == 1 && !seen[e.From] &&
+						int(m.Round) != round && m.DataRound == 0 {
+						rcs = append(rcs, e.Msg)
+						seen[e.From] = true
+					}
+				}
 			}
 			if len(rcs) < w.Quorum() {
 				return nil, fmt.Errorf("adversary cannot justify a proposal for (%d,%s)", round, value)
